@@ -4,25 +4,28 @@
 //! named sites inside Kira. With no callback installed, a hook hit is a
 //! single relaxed atomic load. Kira's behaviour is unchanged.
 
-use std::sync::atomic::{AtomicUsize, Ordering};
+use std::sync::atomic::{AtomicPtr, Ordering};
 
 /// The signature of the hook callback.
 pub type HookFn = fn(site: &'static str, a: u64, b: u64);
 
-static HOOK: AtomicUsize = AtomicUsize::new(0);
+static HOOK: AtomicPtr<()> = AtomicPtr::new(std::ptr::null_mut());
 
 /// Installs (or removes) the process-global hook callback.
 pub fn set_hook(hook: Option<HookFn>) {
-	HOOK.store(hook.map(|f| f as usize).unwrap_or(0), Ordering::SeqCst);
+	HOOK.store(
+		hook.map(|f| f as *mut ()).unwrap_or(std::ptr::null_mut()),
+		Ordering::SeqCst,
+	);
 }
 
 /// Called by Kira at each hook site.
 #[inline]
 pub fn hit(site: &'static str, a: u64, b: u64) {
 	let hook = HOOK.load(Ordering::Relaxed);
-	if hook != 0 {
-		// SAFETY: the only non-zero values ever stored are `HookFn` pointers
-		let hook: HookFn = unsafe { std::mem::transmute::<usize, HookFn>(hook) };
+	if !hook.is_null() {
+		// SAFETY: the only non-null values ever stored are `HookFn` pointers
+		let hook: HookFn = unsafe { std::mem::transmute::<*mut (), HookFn>(hook) };
 		hook(site, a, b);
 	}
 }
